@@ -180,6 +180,7 @@ func (s *Session) RunCheck(ps *PropSpec, opts CheckOpts) int {
 		}
 		results = append(results, s.Generate(key)...)
 	}
+	lemmaRes := s.LemmaResults()
 	genTime := time.Since(start).Seconds()
 	generated := map[string]int{}
 	outOfScope := 0
@@ -253,6 +254,9 @@ func (s *Session) RunCheck(ps *PropSpec, opts CheckOpts) int {
 				}
 			}
 		}
+	}
+	if len(lemmaRes.Obligations) > 0 {
+		results = append(results, lemmaRes) // after scoping: spec lemmas belong to every property
 	}
 	s.DischargeAll(results, ps.ID)
 	s.RetryWithFindings(results, ps.ID)
@@ -338,7 +342,7 @@ func (s *Session) RunCheck(ps *PropSpec, opts CheckOpts) int {
 	}
 
 	// evidence numbers
-	nObl, nDis, nInst := 0, 0, 0
+	nObl, nDis, nInst, nKnown := 0, 0, 0, 0
 	solverCount := map[string]int{}
 	solverTime := 0.0
 	classes := map[string]int{}
@@ -347,6 +351,11 @@ func (s *Session) RunCheck(ps *PropSpec, opts CheckOpts) int {
 		nInst += sm.Instances
 		if sm.Status == "unsat" {
 			nDis++
+		}
+		if sm.Status == "known-finding" {
+			// discharged under the negation of the finding's characteristic predicate
+			nDis++
+			nKnown++
 		}
 		classes[sm.Class]++
 		for k, v := range sm.Solvers {
@@ -441,6 +450,7 @@ func (s *Session) RunCheck(ps *PropSpec, opts CheckOpts) int {
 		"scope":               ps.Scope,
 		"out_of_scope_query_instances": outOfScope,
 		"pinned_clauses":      len(ps.Pinned),
+		"discharged_only_under_known_finding_exclusion": nKnown,
 		"sweep_packages":      ps.Sweep,
 		"sweep_not_covered":   ps.SweepExclude,
 	}
